@@ -8,6 +8,12 @@ from specgen import ops_spec
 PAYLOADS = ['q"uote', 'back\\slash', 'end */ comment', 'br]acket', '#[derive(Evil)]', 'fmt {} {0} {x}', '"# raw', 'line1\nline2', 'nul\x00byte', 'bidi‮evil', 'x' * 700, 'lit\\nnewline', '// slash', '/* open', 'tick`tick', '"); panic!("x', "single'quote", '{{double}}', '$crate::x', "\\u{41}", 'tab\there']
 
 
+# values of NON-string members written as strings: the text is the WHOLE value and starts like a number
+NUM_PAYLOADS = ['1; c19_marker(); 0', '1 + c19_marker()', '2 as u8', '3)] struct X; #[x(', '4 /* open', '5 // slash', '6"quote', '7i64, evil = 1', '-8; x()', '9.5; y()', '0x1f + z()']
+# patterns that are valid regular expressions as they stand (inserted unescaped): raw-string / string terminators next to backslashes
+PAT_PAYLOADS = ['\\d"# + c19_marker() + r#"\\d', '\\w"#b', 'a"#b', '\\s"', 'x"##y\\d', '\\d"; c19_marker(); "', 'r#"\\d', '\\\\"#', '\\d\\"#']
+
+
 def base_spec_text():
     s = ops_spec([{"opid": "listPets", "method": "get", "path": "/pets/{id}", "params": [{"name": "id", "in": "path", "level": "op", "type": "string"}, {"name": "limit", "in": "query", "level": "op", "type": "integer"}, {"name": "X-Trace", "in": "header", "level": "op", "type": "string"}], "body": None, "responses": [["200", [["application/json", "ref:Pet"]]], ["default", [["application/json", "ref:Err"]]]]},
                   {"opid": "createPet", "method": "post", "path": "/pets", "params": [], "body": {"content": [["application/json", "ref:Pet"]], "required": True}, "responses": [["201", [["application/json", "ref:Pet"]]]]}])
@@ -16,6 +22,13 @@ def base_spec_text():
     pet["properties"]["name"].update({"description": "TXT", "default": "TXT", "example": "TXT", "pattern": "TXT"})
     pet["properties"]["kind"] = {"type": "string", "enum": ["cat", "TXT"], "description": "TXT"}
     pet["properties"]["fixed"] = {"type": "string", "const": "TXT"}
+    pet["properties"]["count"] = {"type": "integer", "default": "TXT"}
+    pet["properties"]["count32"] = {"type": "integer", "format": "int32", "default": "TXT"}
+    pet["properties"]["ucount"] = {"type": "integer", "format": "uint32", "minimum": 0, "default": "TXT"}
+    pet["properties"]["ratio"] = {"type": "number", "default": "TXT"}
+    pet["properties"]["flag"] = {"type": "boolean", "default": "TXT"}
+    pet["properties"]["cfix"] = {"type": "integer", "const": "TXT"}
+    pet["properties"]["cone"] = {"type": "integer", "enum": ["TXT"]}
     s["info"]["title"] = "TXT"; s["info"]["description"] = "TXT"
     s["servers"] = [{"url": "https://example.com/TXT"}]
     op = s["paths"]["/pets/{id}"]["get"]
@@ -46,7 +59,17 @@ POSITIONS = [
     (("paths", "/pets/{id}", "get", "parameters", 1, "description"), False, "doc"),
     (("paths", "/pets/{id}", "get", "responses", "200", "description"), False, "doc"),
     (("components", "schemas", "U", "discriminator", "mapping"), True, "lit"),
+    (("components", "schemas", "Pet", "properties", "count", "default"), False, "none"),
+    (("components", "schemas", "Pet", "properties", "count32", "default"), False, "none"),
+    (("components", "schemas", "Pet", "properties", "ucount", "default"), False, "none"),
+    (("components", "schemas", "Pet", "properties", "ratio", "default"), False, "none"),
+    (("components", "schemas", "Pet", "properties", "flag", "default"), False, "none"),
+    (("components", "schemas", "Pet", "properties", "cfix", "const"), False, "none"),
+    (("components", "schemas", "Pet", "properties", "cone", "enum", 0), False, "none"),
+    (("paths", "/pets/{id}", "get", "parameters", 1, "schema", "default"), False, "none"),
 ]
+N_TEXT = 17                      # positions [0, N_TEXT) carry text; the rest are non-string members / parameters
+PATTERN_POS = 5
 
 
 def setp(s, path, val):
@@ -70,6 +93,10 @@ def prepare(case):
     if path[-1] == "mapping":
         m = a["components"]["schemas"]["U"]["discriminator"]["mapping"]; m["inertK"] = m.pop("inert")
         mb = b["components"]["schemas"]["U"]["discriminator"]["mapping"]; mb["inertK" + pay] = mb.pop("inert")
+    elif d.get("kind") == "num":
+        setp(a, path, "inertK"); setp(b, path, pay)       # the whole value; neither is a number
+    elif path[-1] == "pattern" and d.get("kind") == "rawpat":
+        setp(a, path, "inertK"); setp(b, path, "inertK" + pay)
     elif path[-1] == "pattern":
         import re
         setp(a, path, "inertK"); setp(b, path, "inertK" + re.escape(pay).replace("\\ ", " "))
@@ -79,7 +106,7 @@ def prepare(case):
     else:
         setp(a, path, "inertK"); setp(b, path, "inertK" + pay)
     pl = pay
-    if path[-1] == "pattern":
+    if path[-1] == "pattern" and d.get("kind") != "rawpat":
         import re
         pl = re.escape(pay).replace("\\ ", " ")
     if path[-1] == "url":
@@ -103,11 +130,19 @@ def run(ctx):
     if driver_ok and ctx.build_harness(["k_gen"]):
         cases = []
         for pi in range(len(POSITIONS)):
-            pays = PAYLOADS if not ctx.quick else r.sample(PAYLOADS, 7)
-            for pay in pays:
+            kind = "text" if pi < N_TEXT else "num"
+            pool = PAYLOADS if kind == "text" else NUM_PAYLOADS
+            pays = pool if not ctx.quick else r.sample(pool, 7 if kind == "text" else 3)
+            plan = [(kind, x) for x in pays]
+            if pi == PATTERN_POS:
+                plan += [("rawpat", x) for x in PAT_PAYLOADS]
+            for kind, pay in plan:
                 modes = ["client-mod", "server-mod"] if not ctx.quick else [r.choice(["client-mod", "server-mod"])]
                 for mode in modes:
-                    cases.append({"op": "inject.pair", "in": {"pos_index": pi, "payload": pay, "mode": mode, "cfg": {"enum_mode": r.choice(["merge", "relaxed"])}}})
+                    cfg = {"enum_mode": r.choice(["merge", "relaxed"])}
+                    if kind == "num" and r.random() < 0.5:
+                        cfg["builders"] = True
+                    cases.append({"op": "inject.pair", "in": {"pos_index": pi, "payload": pay, "kind": kind, "mode": mode, "cfg": cfg}})
         ctx.shrunk = 99      # positions/payloads are already minimal
         B = 60
         for i in range(0, len(cases), B):
@@ -117,4 +152,4 @@ def run(ctx):
     return ctx.finish(
         checker_cmd="lake build Oas3Model.Props.C19 && #print axioms on every theorem" + ("" if ctx.quick else " && leanchecker"),
         trusted_base=vlib.TRUSTED_BASE + ["syn/prettyplease printing of string literals and doc attributes (token -> text) is trusted; the comparison is on tokens re-parsed from the emitted text", "which macro arguments are format strings is recognised by macro name (write!/format!/println!/…)"],
-        rule="a catalogue of 21 injection payloads (quote/escape breakers, comment terminators, attribute syntax, format braces, raw-string terminators, newlines, NUL, bidi controls, long text, `\\n` escapes) substituted at 17 text-bearing positions (descriptions, summaries, titles, enum/const/default/example values, pattern, server URL, response descriptions, discriminator mapping keys) of a generated spec, client-mod and server-mod, merge and relaxed enum modes (all 21x17x2 thorough; 7 payloads x 1 mode quick), each compared with the same spec carrying inert text: token skeleton with literals and docs erased must be identical (identifier-deriving positions: identical shape), every literal used as a format string must print itself, the payload must be recoverable from the literals/docs; non-trivial = every pair; distinct by (position, payload, mode)")
+        rule="a catalogue of 21 injection payloads (+ 11 number-like texts as the whole value of non-string members and parameters: default/const/single enum of integer, int32, uint32, number, boolean; + 9 valid regular expressions with string / raw-string terminators next to backslashes, inserted unescaped as `pattern`) (quote/escape breakers, comment terminators, attribute syntax, format braces, raw-string terminators, newlines, NUL, bidi controls, long text, `\\n` escapes) substituted at 17 text-bearing positions (descriptions, summaries, titles, enum/const/default/example values, pattern, server URL, response descriptions, discriminator mapping keys) of a generated spec, client-mod and server-mod, merge and relaxed enum modes (all 21x17x2 thorough; 7 payloads x 1 mode quick), each compared with the same spec carrying inert text: token skeleton with literals and docs erased must be identical (identifier-deriving positions: identical shape), every literal used as a format string must print itself, the payload must be recoverable from the literals/docs; non-trivial = every pair; distinct by (position, payload, mode)")
